@@ -46,20 +46,25 @@ package bluemonday
 //@   reveal[C14] wfRegex
 //@   requires wfp(p) && p.initialized && r != nil && w != nil
 //@   requires[C16] !outFailed
-//@   modifies ghost outFailed, outN, outLast, outCount, tzCur, tzPrev, tzErr, sanEl, sanRes, lastErr, lastBuf
+//@   modifies ghost outFailed, outN, outLast, outCount, tzCur, tzPrev, tzErr, sanEl, sanRes, lastErr, lastBuf, gD
 //@   modifies nothing
 //@   ensures[C16] outFailed ==> result != nil
 //@   ensures[C16] result == nil ==> tzErr == io.EOF
 //@   requires[textpres] !p.allowUnsafe
+//@   requires[wellnested] gD == 0
 //@   requires[strict] (forall e string :: !(e in p.elsAndAttrs)) && (forall r *regexp.Regexp :: !(r in p.elsMatchingAndAttrs)) && !p.allowComments && !p.allowUnsafe
 //@   at-call (*html.Tokenizer).Next
+//@     assume[wellnested] gD >= 0 && gD == old(gD) + ite(tzCur.Type == 2 && skipEl(p, tzCur.Data), 1, 0) - ite(tzCur.Type == 3 && skipEl(p, tzCur.Data), 1, 0)
 //@     assume[textpres] isTagTok(tzCur) ==> normalise(tzCur.Data) != "script" && normalise(tzCur.Data) != "style" && !(tzCur.Data in p.setOfElementsToSkipContent)
 //@   at-call (io.StringWriter).WriteString(w, s)
 //@     assert[C01] emitC01(p, token, s) || (p.allowUnsafe && token.Type == 1 && s == token.Data && isScriptStyle(mostRecentlyStartedToken) && elAllowed(p, mostRecentlyStartedToken))
 //@     assert[C05] emitC05(p, token, tzPrev, s)
 //@     assert[C04,strict] (s == " " && p.addSpaces) || (token.Type == 1 && s == TokString(token, elems(token.Attr)))
+//@     assert[C08,wellnested] s == " " || gD == 0
 //@   at-call (io.StringWriter).WriteString(w, s) where s from (html.Token).String
 //@     assert[C02] (token.Type == 2 || token.Type == 4) ==> (len(token.Attr) == 0 && bareOK(p, token.Data)) || (len(token.Attr) > 0 && sanEl == token.Data && sanRes == token.Attr)
+//@   before "switch token.Type {"
+//@     lemma[C08,wellnested] token == tzCur && gD >= 0 && gD == skippingElementsCount + ite(token.Type == 2 && skipEl(p, token.Data), 1, 0) - ite(token.Type == 3 && skipEl(p, token.Data), 1, 0) && (skipElementContent <==> skippingElementsCount > 0)
 //@   loop 0 "for {"
 //@     invariant wfp(p) && p.initialized
 //@     invariant skipClosingTag <==> len(closingTagToSkipStack) > 0
@@ -67,6 +72,8 @@ package bluemonday
 //@     invariant[C05] tzCur.Type == 2 ==> mostRecentlyStartedToken == normalise(tzCur.Data)
 //@     invariant[C06,textpres] !skipElementContent && skippingElementsCount == 0 && mostRecentlyStartedToken != "script" && mostRecentlyStartedToken != "style"
 //@     invariant[C06,textpres] stepOK(p, tzCur, outN, outLast)
+//@     invariant[C08,wellnested] gD >= 0 && skippingElementsCount == gD && (skipElementContent <==> gD > 0)
+//@     invariant[C08,wellnested] forall i int :: 0 <= i && i < len(closingTagToSkipStack) ==> elAllowed(p, closingTagToSkipStack[i])
 //@   loop 1 "for regex := range p.elsMatchingAndAttrs"
 //@     invariant[C06,textpres] skippingElementsCount == 0 && mostRecentlyStartedToken != "script" && mostRecentlyStartedToken != "style"
 //@     invariant match <==> (exists r *regexp.Regexp :: $visited(r) && rmatch(r, token.Data))
